@@ -75,19 +75,40 @@ def run_plan(ctx, program, history, plan, pids, tag):
     absorbed_at = None
     with Tap(on_event=on_event, keep=False):
         for step, o in enumerate(history):
+            in_block = False
             if nocache_steps and step in nocache_steps:
-                o = U.set_path(o, "LABREA.CACHE.DISABLED", True)
+                if step % 2:
+                    in_block = True  # the same switch as a handler block: a failure must unwind it
+                else:
+                    o = U.set_path(o, "LABREA.CACHE.DISABLED", True)
             n_raised = len(log.raised)
             n_stores = len(stores)
             err = None
+            import threading as _th
+
+            from labrea import runtime as _rt
+
+            rt_before = _rt._RUNTIMES.get(_th.current_thread())
             try:
-                v = G.root.evaluate(copy.deepcopy(o))
+                if in_block:
+                    ctx.count("steps_inside_handler_block")
+                    with labrea.cache.disabled():
+                        v = G.root.evaluate(copy.deepcopy(o))
+                else:
+                    v = G.root.evaluate(copy.deepcopy(o))
                 from ..outcome import canon as _c
 
                 got = ("ok", _c(v))
             except BaseException as e:  # noqa: BLE001
                 err = e
                 got = ("err", type(e).__name__)
+            if _rt._RUNTIMES.get(_th.current_thread()) is not rt_before:
+                ctx.violation("failed-evaluation-left-handlers-installed", f"step {step}: after {'a failing' if err is not None else 'an'} evaluation inside a handler block the thread's "
+                              f"current runtime is not the one that was current before the block", {**W, "step": step})
+                # restore, so that the harness itself keeps working
+                with _rt.lock:
+                    _rt._RUNTIMES[_th.current_thread()] = rt_before
+                return
             ctx.evaluations += 1
             injected = log.raised[n_raised:]
             if injected:
